@@ -40,6 +40,13 @@ def cdfUniform (x lo hi : Rat) : Rat :=
 def pdfGauss (T : Fn) (x mu sigma : Rat) : Rat :=
   1 / T.sqrt (2 * T.pi) / sigma * T.exp (-(((x - mu) / sigma) ^ 2) / 2)
 
+/-- `PDF_Gauss_2D(x, y, mean, sigma)` as coded:
+    `0.5 / M_PI / s1 / s2 * exp(-0.5 * (dx*dx/s1/s1 + dy*dy/s2/s2))` -/
+def pdfGauss2D (T : Fn) (x y m1 m2 s1 s2 : Rat) : Rat :=
+  let dx := x - m1
+  let dy := y - m2
+  1 / 2 / T.pi / s1 / s2 * T.exp (-(1 / 2) * (dx * dx / s1 / s1 + dy * dy / s2 / s2))
+
 def cdfGauss (T : Fn) (x mu sigma : Rat) : Rat :=
   1 / 2 * (1 + T.erf ((x - mu) / (T.sqrt 2 * sigma)))
 
